@@ -128,6 +128,7 @@ def r1b(ctx):
             a, b = ret[2]
             filt = [x for x in walk(a) if x[0] == 'call' and x[1].endswith('Iterator::filter')]
             okf = False
+            added_filters = []
             for x in filt:
                 cl = x[2][1]
                 if cl[0] == 'closure':
@@ -135,7 +136,9 @@ def r1b(ctx):
                     if cf is not None:
                         ctx.touch(cf)
                         r = ex(prog, cf).local(0)
-                        okf = okf or (P.not_(P.call('alloc::collections::btree::set::BTreeSet::contains', P.has(P.upvar('added_outpoints')), P.anything))(r))
+                        if P.not_(P.call('alloc::collections::btree::set::BTreeSet::contains', P.has(P.upvar()), P.anything))(r):
+                            okf = True
+                            added_filters.append(x)
             rng = P.has(P.call('ic_stable_structures::btreemap::BTreeMap::range', P.field('address_utxos', P.param('self')), P.anything))(a)
             # the pair (added, removed) is a match-joined tuple: resolve its components through the definitions
             def comp(x, idx, accessor):
@@ -146,7 +149,7 @@ def r1b(ctx):
                             and any(P.call(D + accessor)(dict(d[4])[idx]) for d in ds)
                 return P.has(P.call(D + accessor))(x)
             merged = comp(b, '1', 'get_removed_outpoints')
-            caps = [u for x in filt for u in (x[2][1][2] if x[2][1][0] == 'closure' else ())]
+            caps = [u for x in added_filters for u in x[2][1][2]]
             okf = okf and bool(caps) and all(comp(u, '0', 'get_added_outpoints') for u in caps)
             good = okf and rng and merged
             why = 'filter-added=%s range=%s merge-removed=%s' % (okf, rng, merged)
